@@ -94,6 +94,14 @@ func c07run(ctx *vc.Ctx) {
 		{q: 0, from: "c", ack: true, late: true}, {q: 1, from: "c", payload: "late", late: true},
 	}
 	c07explore(ctx, "2queries/9replies", 2, two, bound)
+	// more distinct responders than the result channels hold (3 = members known to memberlist) while nobody
+	// reads: whatever the node does with the overflow, nothing may reach a stream after the close
+	over := []c07reply{
+		{q: 0, from: "b", payload: "1"}, {q: 0, from: "c", payload: "2"}, {q: 0, from: "d", payload: "3"}, {q: 0, from: "e", payload: "4"}, {q: 0, from: "f", payload: "5"},
+		{q: 0, from: "b", ack: true}, {q: 0, from: "c", ack: true}, {q: 0, from: "d", ack: true}, {q: 0, from: "e", ack: true},
+		{q: 0, from: "g", payload: "late", late: true},
+	}
+	c07explore(ctx, "1query/overflow", 1, over, bound-1)
 }
 
 func c07explore(ctx *vc.Ctx, name string, nq int, script []c07reply, bound int) {
